@@ -1,6 +1,8 @@
 package scen
 
 import (
+	"verifharness/chain"
+
 	"github.com/pegnet/pegnetd/fat/fat2"
 )
 
@@ -38,6 +40,31 @@ func buildSalts(seed int64) (*Scenario, error) {
 		b.TxAt(h, minute, ets-h12+d, alice, Xfer(A, FCT, amt(2), Bo)) // just young enough
 		b.TxAt(h, minute, ets+h12-d, alice, Xfer(A, FCT, amt(3), Bo)) // just not too far ahead
 		b.TxAt(h, minute, ets+h12+d, alice, Xfer(A, FCT, amt(4), Bo)) // too far ahead
+	}
+	// a valid entry at the END of a block that starts with forged entries carrying the same RCD (signature bytes
+	// altered, content altered under the copied signature): the forgeries have no effect and cannot keep the valid
+	// entry from executing
+	for _, h := range []uint32{107, 110} {
+		content, err := chain.BatchJSON(Xfer(A, FCT, (uint64(h)*10+9)*1e6, Bo))
+		if err != nil {
+			return nil, err
+		}
+		good := chain.SignedBatchEntry(content, []chain.SignerKey{alice}, b.TS(h))
+		for k := 0; k < 9+rng.Intn(8); k++ {
+			bad := chain.RawEntry{Content: append([]byte(nil), good.Content...)}
+			for _, x := range good.ExtIDs {
+				bad.ExtIDs = append(bad.ExtIDs, append([]byte(nil), x...))
+			}
+			if k%3 == 2 {
+				other, _ := chain.BatchJSON(Xfer(A, FCT, (uint64(h)*10+9)*1e6+uint64(k)+1, Bo))
+				bad.Content = other
+			} else {
+				bad.ExtIDs[2][k%64] ^= 1 << uint(k%8)
+			}
+			b.Raw(h, 1, bad)
+		}
+		i := b.Raw(h, 10, good)
+		b.Expect(h, i, int64(h), "valid entry behind a flood of forgeries with its RCD")
 	}
 	b.OPR(113, 25, hprice(seed, 113), nil)
 	b.Dump(105, 106, 108, 112)
